@@ -36,6 +36,8 @@ KINDS = {
     # a user class that is not an aggregate: explicit constructor with defaults (so `T()` is its only default
     # construction syntax - copy-list-initialisation `T x = {}` / `return {};` is ill-formed), non-trivial member
     'uclass': dict(cpp='UserClass', arith=False, binary=False, sample='UserClass(1, "x")'),
+    # a user label without data members (a tag): a label type like any other - stored per edge, missing on a missing edge
+    'utag': dict(cpp='UserTag', arith=False, binary=True, sample='UserTag()'),
 }
 QUICK_KINDS = list(KINDS)  # extraction is cheap and parallel; all kinds in both tiers
 
@@ -54,6 +56,10 @@ struct UserStruct {
     double b;
     bool operator==(const UserStruct &o) const { return a == o.a && b == o.b; }
     bool operator<(const UserStruct &o) const { return a < o.a || (a == o.a && b < o.b); }
+};
+struct UserTag {
+    bool operator==(const UserTag &) const { return true; }
+    bool operator<(const UserTag &) const { return false; }
 };
 class UserClass {
     int a;
@@ -232,7 +238,7 @@ def fixed_cells():
                        '(void)c.getWeightMatrix(); ')
             if directed:
                 common += ('(void)c.getInDegree(0); (void)c.getInDegrees(); (void)c.getOutDegree(0); '
-                           '(void)c.getOutDegrees(); ')
+                           '(void)c.getOutDegrees(); g.addReciprocalEdge(0, 1, 0.5); g.addReciprocalEdge(0, 1, 0.5, true); ')
             else:
                 common += '(void)c.getDegree(0); (void)c.getDegrees(); '
             cells.append(Cell(p + '_dijkstra', 'algo', A + 'findGeodesicsDijkstra',
